@@ -24,12 +24,22 @@ Vocabulary (Lemmas/Iso1 … Iso7):
   `Agrees h st r`, `EntryOK d P h e`, `SoundW d P w`, `HSound d P s` — a heap state / a cache entry / the cache / a history
                  agree with that meaning (Lemmas/Iso9 … Iso12);
   `Closed P`, `KeyOK d P`, `Safe d P` — the class of chains an evaluation stays in, "cache keys determine the meaning"
-                 (what C02/C03 establish for the canonical text), "`getvar` is not applied to a volatile state".
+                 (what C02/C03 establish for the canonical text), "`getvar` and `cvapp` are not applied to a volatile state".
 
-Finding recorded by the last example of section 4: a volatile state is not cloned before a command, `getvar` hands out the
+Commands see two sets of variables: those of the state they are handed (`state.vars`: `let`, `getvar`, `vapp`) and those of
+the context (`context.vars`: `cvapp`) — the latter are the very objects of the PREDECESSOR state, taken before it was cloned
+(`cmdH … ctx …`, `evalChain` passes the predecessor's variable list).  The predecessor is the initial state (deep copies of
+the defaults) or the result of the recursive evaluation, so its cells were allocated by this evaluation: the footprint of a
+command (`cmdFoot`) is the state in hand, the argument values and the context's variables, all owned by the running
+evaluation, and the frame (section 1) holds unchanged.  The caller operations include `mutInner` (`R[i].data[0][:] = l`, an
+in-place write to a list nested in returned data; one cell per value, so it is a write to the data cell of state `i`).
+
+Finding recorded by the last examples of section 6: a volatile state is not cloned before a command.  `getvar` hands out the
 variable's own object as data, so in `vol/getvar-lst/app-x` the in-place `append` also changes the variable `lst` of the
-returned state (the value-level meaning keeps `lst` at its default).  Nothing leaks to another evaluation (the theorems of
-sections 1-3 hold for all chains), but the "result = meaning" theorem needs the hypothesis `Safe`.
+returned state; `cvapp` appends to the context's variable, which for a volatile predecessor IS the variable of the state the
+command returns, so in `vol/cvapp-lst-x` the variable `lst` of the returned state changes too (the value-level meaning keeps
+`lst` at its default in both cases: after a clone the context's object is not the state's).  Nothing leaks to another
+evaluation (the theorems of sections 1-3 hold for all chains), but the "result = meaning" theorems need the hypothesis `Safe`.
 -/
 import LiquerProofs.Lemmas.Iso13
 import LiquerProofs.Lemmas.IsoExample
@@ -95,8 +105,8 @@ theorem sep_run {s : Hist} (sp : Sep s) (ops : List Op) : Sep (run s ops) := sp.
 
 /-! ### 3. isolation -/
 
-/-- a caller mutating the returned state `i` (its data, a variable's value, the variable dictionary, the metadata) changes
-no other returned state, no cache entry and not the defaults -/
+/-- a caller mutating the returned state `i` (its data, a list nested in its data, a variable's value, the variable
+dictionary, the metadata) changes no other returned state, no cache entry and not the defaults -/
 theorem caller_isolation {s : Hist} (sp : Sep s) (op : Op) (i : Nat) (ht : op.target = some i) :
     (step s op).returned = s.returned ∧ (step s op).w.cache = s.w.cache ∧ (step s op).w.defaults = s.w.defaults ∧
     (∀ j st, j ≠ i → s.nth j = some st → absState (step s op).w.heap st = absState s.w.heap st) ∧
@@ -130,9 +140,10 @@ theorem returned_never_changes {s : Hist} (sp : Sep s) (ops : List Op) {j : Nat}
 
 /-! ### 4. every result is the value-level meaning of its chain, whatever happened before -/
 
-/-- `Safe` follows from a syntactic condition: no `vol` to the left of a `getvar` in the chains of the class -/
+/-- `Safe` follows from a syntactic condition: no `vol` to the left of a `getvar` or a `cvapp` in the chains of the class -/
 theorem safe_of_no_vol_before_getvar {d : List (Str × Val)} {P : List Act → Prop}
-    (hsyn : ∀ acts act, P acts → acts.getLast? = some act → String.ofList act.name = "getvar" →
+    (hsyn : ∀ acts act, P acts → acts.getLast? = some act →
+      (String.ofList act.name = "getvar" ∨ String.ofList act.name = "cvapp") →
       ∀ b ∈ acts.dropLast, String.ofList b.name ≠ "vol") : Safe d P := safe_of_syntactic hsyn
 
 /-- `KeyOK` follows from injectivity of the key text on the class -/
@@ -302,6 +313,48 @@ example :
     dataOf (run s0 [.eval qAE, .eval [.mk (S "mk") [.text (S "b")], extZ]]) 1 = some (.list [.str (S "b"), .str (S "z")]) :=
   ⟨rfl, rfl⟩
 
+/-- `cvapp` as the FIRST action of a chain: the context's variables are the initial state's own copies of the configured
+defaults (cell 1 is the copy of `lst`, cell 0 the configured object).  The append hits the copy; the state handed to the
+command is a clone of the initial state, so the result still has the default; the configured defaults abstract to `d0` -/
+example :
+    (run s0 [.eval qCG]).w.heap.valAt 1 = .list [.str (S "d1"), .str (S "x")] ∧
+    (run s0 [.eval qCG]).w.heap.valAt 0 = .list [.str (S "d1")] ∧
+    dataOf (run s0 [.eval qCG]) 0 = some (.list [.str (S "d1")]) ∧
+    varsOf (run s0 [.eval qCG]) 0 = some d0 ∧
+    (refChain d0 9 qCG).map (fun r => (r.data, r.vars)) = some (.list [.str (S "d1")], d0) ∧
+    absVars (run s0 [.eval qCG]).w.heap (run s0 [.eval qCG]).w.defaults = d0 :=
+  ⟨rfl, rfl, rfl, rfl, rfl, rfl⟩
+
+/-- that chain (and its one-step prefix, served from the cache the second time) satisfies the hypotheses of the theorems of
+section 4: `cvapp` follows no `vol` -/
+example : HSound d0 P0 (run s0 [.eval [cvX], .eval qCG, .eval qCG]) := by
+  refine history_sound closed0 keyOK0 safe0 (HSound.init true h0_wf dd_lt dd_keys) _ (fun q hq => ?_)
+  simp only [List.mem_cons, Op.eval.injEq, List.not_mem_nil, or_false] at hq
+  rcases hq with rfl | rfl | rfl <;> simp [P0, chains]
+
+/-- data of the cache entry under a key, as it is now -/
+def cacheData (s : Hist) (k : Str) : Option Val := (s.w.entry k).map (fun e => (absState s.w.heap e).data)
+
+/-- evaluate `mk-a/pair-~X~/mk-z~E` (data `[[a],[z]]`: a list nested in the data) and `mk-a/app-b`; the caller overwrites the
+inner list of the first result in place (`mutInner`); evaluate the first chain again -/
+def ops2 : List Op := [.eval qAP, .eval qAB, .mutInner 0 zz, .eval qAP]
+
+example : (Op.mutInner 0 zz).target = some 0 ∧ Sep (run s0 ops2) ∧ HSound d0 P0 (run s0 ops2) := by
+  refine ⟨rfl, sep_run sep0 _,
+    history_sound closed0 keyOK0 safe0 (HSound.init true h0_wf dd_lt dd_keys) _ (fun q hq => ?_)⟩
+  simp only [ops2, List.mem_cons, Op.eval.injEq, List.not_mem_nil, or_false, reduceCtorEq, false_or] at hq
+  rcases hq with rfl | rfl | rfl <;> simp [P0, chains]
+
+/-- the write shows in the state it was made on and nowhere else: not in the cache entry, not in the other returned state,
+not in what the next evaluation returns -/
+example :
+    dataOf (run s0 ops2) 0 = some (.list [.list zz, .list [.str (S "z")]]) ∧
+    dataOf (run s0 ops2) 1 = some (.list [.str (S "a"), .str (S "b")]) ∧
+    cacheData (run s0 ops2) (keyOf false qAP) = some (.list [.list [.str (S "a")], .list [.str (S "z")]]) ∧
+    dataOf (run s0 ops2) 2 = some (.list [.list [.str (S "a")], .list [.str (S "z")]]) ∧
+    absVars (run s0 ops2).w.heap (run s0 ops2).w.defaults = d0 :=
+  ⟨rfl, rfl, rfl, rfl, rfl⟩
+
 /-- why `Safe` is needed (finding): in the volatile chain `vol/getvar-lst/app-x` the state is not cloned between steps, the
 data IS the variable's object, and the `append` changes the variable `lst` of the returned state; the value-level meaning
 keeps the default.  (The defaults themselves and every other state are untouched — `defaults_never_change`.) -/
@@ -309,6 +362,15 @@ example :
     varsOf (run s0 [.eval [vol, getL, appX]]) 0 = some [(S "lst", .list [.str (S "d1"), .str (S "x")])] ∧
     (refChain d0 9 [vol, getL, appX]).map (·.vars) = some d0 ∧
     absVars (run s0 [.eval [vol, getL, appX]]).w.heap (run s0 [.eval [vol, getL, appX]]).w.defaults = d0 :=
+  ⟨rfl, rfl, rfl⟩
+
+/-- the same for `cvapp` (finding): after `vol` the state is not cloned, the context's variable `lst` IS the variable of the
+state the command returns, and the append shows in the result's variables; the value-level meaning keeps the default.  (The
+configured defaults are untouched: the volatile state still holds the initial state's copies.) -/
+example :
+    varsOf (run s0 [.eval [vol, cvX]]) 0 = some [(S "lst", .list [.str (S "d1"), .str (S "x")])] ∧
+    (refChain d0 9 [vol, cvX]).map (·.vars) = some d0 ∧
+    absVars (run s0 [.eval [vol, cvX]]).w.heap (run s0 [.eval [vol, cvX]]).w.defaults = d0 :=
   ⟨rfl, rfl, rfl⟩
 
 end example_history
